@@ -174,6 +174,9 @@ def insert_calls():
     t, u = tabs()
     return {
         "columns": lambda q, Q: q.columns("id", "a"),
+        # the same column list given in two calls (with rows added before, between or after them)
+        "columns-id": lambda q, Q: q.columns("id"),
+        "columns-a": lambda q, Q: q.columns("a"),
         "insert": lambda q, Q: q.insert(1, 2),
         "insert2": lambda q, Q: q.insert(3, 4),
         "select": lambda q, Q: q.from_(u).select(u.id, u.a),
@@ -227,7 +230,7 @@ KINDS = {
     "drop": (lambda Q: Q.drop_table(tabs()[0]), lambda: {"if_exists": lambda q, Q: q.if_exists()}),
 }
 # calls that address the same clause (their relative order is part of the meaning)
-SAME_CLAUSE = [{"set", "set2"}, {"insert", "insert2", "select"}, {"columns", "columns2", "as_select"},
+SAME_CLAUSE = [{"set", "set2"}, {"insert", "insert2", "select"}, {"columns", "columns2", "as_select"}, {"columns", "columns-id", "columns-a"},
                {"on_conflict", "do_update", "do_nothing", "where"}, {"limit", "offset"} - {"offset"}]
 # completeness: which call sets make the builder complete
 def complete(kind, calls):
@@ -640,16 +643,25 @@ def run_perm(case, mon):
         rnd = random.Random(case.get("sample", 0))
         orders = [tuple(rnd.sample(calls, len(calls))) for _ in range(60)]
     outs = {}
+    rejected = []
     for order in orders:
         if not groups_ok(order, calls):
             continue
         try:
             sql = render(apply(kind, d, list(order), var), d)
-        except Exception:
+        except Exception as e:
             mon.count("orders_rejected_by_library")
+            rejected.append((order, e))
             continue
         outs.setdefault(sql, []).append(order)
         mon.count("orders_rendered")
+    if outs and rejected:
+        # the same calls build a statement in one order and are refused in another: the calls do not commute
+        o_ok = list(outs.values())[0][0]
+        o_bad, exc = rejected[0]
+        mon.violation("%s:order-dependent-rejection:%s:%s" % (kind, type(exc).__name__, fam), "order %s of the calls builds %r but order %s is refused with %r%s" % (
+            list(o_ok), list(outs)[0][:160], list(o_bad), exc, " (argument forms %s)" % var if var else ""), {"calls": calls, "var": var})
+        return
     if len(outs) > 1:
         (s1, o1), (s2, o2) = list(outs.items())[:2]
         # name the pair of calls whose swap matters: find two orders differing by an adjacent transposition
